@@ -308,7 +308,11 @@ theorem interp_mono (reg : Registry) : ∀ f : Nat,
             generalize writeTree reg f nodes { c := { s.c with incD := s.c.incD + 1 }, w := {} } = r at h
             unfold inclFinish
             cases r.err with
-            | some e => exact h.trans (CMono.of_eq rfl rfl rfl)
+            | some e =>
+              simp only
+              split
+              · exact h.trans (CMono.of_eq rfl rfl rfl)
+              · exact (h.trans (CMono.of_eq rfl rfl rfl)).trans (write_mono _ _)
             | none =>
               simp only
               exact (h.trans (CMono.of_eq rfl rfl rfl)).trans (write_mono _ _)
